@@ -38,17 +38,17 @@ PROPS = {
     "C02": dict(streams=[ALGO, HIST], translators=["formulas"], oracles=[dict(name="criterion", profiles=["debug"])],
                 assumptions=["whole-run theorems are about primitive_with and nnchain_with in exact rational arithmetic (single/complete: any strict weak order); generic: exact rationals with an infinite sentinel); the float tolerance is measured by correspondence and oracle"]),
     "C03": dict(streams=[ALGO, HIST, COMP], oracles=[dict(name="greedy", profiles=["debug"])],
-                assumptions=["theorems cover the primitive algorithm (working matrix: any carrier; closed-form criterion: exact arithmetic); order laws of `<` (transitive, irreflexive) are hypotheses that IEEE comparison satisfies"]),
+                assumptions=["greedy theorems cover primitive (working matrix: any carrier; closed-form criterion: exact arithmetic) and generic (any strict weak order for single/complete; all seven methods over option Q); order laws of `<` are hypotheses that IEEE comparison satisfies on NaN-free values; nnchain and mst are not stepwise greedy"]),
     "C04": dict(streams=[ALGO, HIST], oracles=[dict(name="single_exact", profiles=["debug"])],
-                assumptions=["threshold-component theorem is for mst_with (= linkage Single) under strict-weak-order hypotheses on the carrier and finite entries; MST-optimality of the Prim weights is classical and not formalised; other entry points are checked by the oracle"]),
+                assumptions=["cut theorem and minimum-spanning-tree theorem hold for all five entry points under strict-weak-order hypotheses on the carrier and entries below +infinity; instantiated on binary64 / binary32 for every finite NaN-free input (classical axioms of the stdlib reals via Flocq); minimality is stated order-theoretically (at every threshold at least as many edges <= t as any spanning tree), total weight only over Q"]),
     "C06": dict(streams=[ALGO], translators=["tables"], oracles=[dict(name="agree", profiles=["debug"])],
-                assumptions=["agreement between different algorithms is not a theorem"]),
+                assumptions=["agreement theorems need tie-free runs (the minimum of the working matrix attained once per iteration / all live dissimilarities distinct); generic = primitive: any strict weak order; nnchain = primitive: same merge trees and equivalent heights for reducible criteria (single/complete generic, average/weighted/ward over Q); Method::Single: all entry points, ties included (same cuts); final labelled dendrogram of nnchain vs primitive and float arithmetic methods are measured by the oracle"]),
     "C09": dict(streams=[ALGO], translators=["formulas"], oracles=[dict(name="scale", profiles=["debug"])],
-                assumptions=["arithmetic methods: the equivariance theorem is conditional on the scaling map commuting with the float operations on the occurring values"]),
+                assumptions=["arithmetic methods: scale equivariance is proved for binary floating point with unbounded exponent range (Flocq FLX rounding on the reals, stdlib real-number axioms); with bounded exponents it holds where no overflow / underflow occurs, which the oracle measures"]),
     "C10": dict(streams=[ALGO, HIST], oracles=[dict(name="order", profiles=["debug"])],
                 assumptions=["hypotheses of the theorem: g preserves < and == on the matrix values and maps the sentinels to the sentinels"]),
     "C11": dict(streams=[ALGO], oracles=[dict(name="permute", profiles=["debug"])],
-                assumptions=["only the symmetry of the update formulas is a theorem"]),
+                assumptions=["permutation invariance is a theorem for primitive (tie-free runs, any commutative carrier / strict weak order), for generic through primitive_generic_agree, and for Method::Single through every entry point with ties (cuts); nnchain/mst with arithmetic methods and float commutativity instances are measured by the oracle"]),
     "C12": dict(streams=[ALGO2, HIST], oracles=[dict(name="safety", profiles=["debug", "release"])],
                 assumptions=["totality is a theorem for mst, primitive, nnchain (strict weak order + reducibility) and generic (strict weak order + reflexive == + no-overflow closure); for arithmetic methods on floats those hypotheses and finiteness of outputs are measured, not proved"]),
     "C14": dict(streams=[("cost", ["debug"])], translators=["tables"], oracles=[dict(name="cost", profiles=["debug"])],
